@@ -106,6 +106,16 @@ def corpus():
                 ('define_macro', 'x', num(5)), ('define_macro', 'y', num(6)),
                 P(('call', 'f', [num(7)])),
                 ('repeat', ('count', num(2)), [P(('call', 'f', [num(3)]))])])
+    # … and a macro defined BEFORE the routine: a parameter (or a local) of the same name hides it
+    # for the whole body — value positions, loop bounds, command operands and arguments alike
+    out.append([('define_macro', 'x', num(5)), ('define_macro', 'lamp', ('str', 'nolight')),
+                ('define', 'g', ['q'], [('return', ('expr', ('bin', '+', v('q'), num(100))))]),
+                ('define', 'f', ['x', 'lamp'],
+                 [P(v('x')), ('setreg', 'hue', v('x')), P(('reg', 'hue')),
+                  ('repeat', ('count', v('x')), [P(num(0))]),
+                  P(('call', 'g', [v('x')])), P(v('lamp')),
+                  ('return', ('expr', ('bin', '*', v('x'), num(2))))]),
+                P(('call', 'f', [num(2), ('str', 'a')])), P(('macro', 'x')), P(('macro', 'lamp'))])
     return [(prog, pop) for prog in out]
 
 
